@@ -937,6 +937,136 @@ func (h *holeSt) apply(st *jstep) {
 	}
 }
 
+
+// contentSim: a coarse input-only simulation of where the points of each series-field key live (hot cache
+// store / pending snapshot store / TSM files), used ONLY to recognise the shape of the known finding
+// delete-during-pending-snapshot-drops-measurement-fields: a delete issued while a snapshot store is pending,
+// naming every series written so far, after which none of those series has a point left in the hot store or in
+// a TSM file while the pending snapshot store still holds points. (The engine then drops the series from the
+// index and the measurement from the field set, because its reconciliation looks at the hot store and the
+// files only; every later read of the measurement returns nothing until the fields are written again.)
+type contentSim struct {
+	hot, pend, tsm map[int]map[int64]bool
+	written        map[int]bool
+}
+
+func newContentSim() *contentSim {
+	return &contentSim{hot: map[int]map[int64]bool{}, pend: map[int]map[int64]bool{}, tsm: map[int]map[int64]bool{}, written: map[int]bool{}}
+}
+func simCount(m map[int]map[int64]bool) int {
+	n := 0
+	for _, v := range m {
+		n += len(v)
+	}
+	return n
+}
+func simMove(dst, src map[int]map[int64]bool) {
+	for k, v := range src {
+		if dst[k] == nil {
+			dst[k] = map[int64]bool{}
+		}
+		for t := range v {
+			dst[k][t] = true
+		}
+		delete(src, k)
+	}
+}
+func (s *contentSim) write(series, field int, t int64) {
+	k := series*nFields + field
+	if s.hot[k] == nil {
+		s.hot[k] = map[int64]bool{}
+	}
+	s.hot[k][t] = true
+	s.written[series] = true
+}
+func (s *contentSim) begin() { // Cache.Snapshot: a non-empty pending store is returned as it is
+	if simCount(s.pend) == 0 {
+		simMove(s.pend, s.hot)
+	}
+}
+func (s *contentSim) commit() { simMove(s.tsm, s.pend) }
+func (s *contentSim) restart() { simMove(s.hot, s.pend) }
+
+// del applies a series range delete to the hot store and the files and reports the shape
+func (s *contentSim) del(series []int, lo, hi int64) bool {
+	named := map[int]bool{}
+	for _, x := range series {
+		named[x] = true
+	}
+	for _, m := range []map[int]map[int64]bool{s.hot, s.tsm} {
+		for k, v := range m {
+			if !named[k/nFields] {
+				continue
+			}
+			for t := range v {
+				if lo <= t && t <= hi {
+					delete(v, t)
+				}
+			}
+		}
+	}
+	if simCount(s.pend) == 0 {
+		return false
+	}
+	for x := range s.written {
+		if !named[x] {
+			return false
+		}
+	}
+	for _, m := range []map[int]map[int64]bool{s.hot, s.tsm} {
+		for k, v := range m {
+			if named[k/nFields] && len(v) > 0 {
+				return false
+			}
+		}
+	}
+	return true
+}
+
+func overDeleteShape(c *jcase) bool {
+	sim := newContentSim()
+	var walk func(steps []jstep) bool
+	walk = func(steps []jstep) bool {
+		for _, st := range steps {
+			switch st.Op {
+			case "write":
+				if st.TornCrash {
+					sim.restart()
+					continue
+				}
+				for _, p := range st.Points {
+					sim.write(p.Series, p.Field, p.T)
+				}
+			case "snap":
+				sim.begin()
+				sim.commit()
+			case "snapbegin":
+				sim.begin()
+			case "commitreplace":
+				// the points are in the new TSM file and still in the snapshot store until commitclear
+				for k, v := range sim.pend {
+					if sim.tsm[k] == nil {
+						sim.tsm[k] = map[int64]bool{}
+					}
+					for t := range v {
+						sim.tsm[k][t] = true
+					}
+				}
+			case "commitclear":
+				sim.pend = map[int]map[int64]bool{}
+			case "crash":
+				sim.restart()
+			case "delete":
+				if sim.del(st.Series, st.Lo, st.Hi) {
+					return true
+				}
+			}
+		}
+		return false
+	}
+	return walk(c.Steps)
+}
+
 func tornShape(c *jcase) bool {
 	var h holeSt
 	for i := range c.Steps {
@@ -987,6 +1117,9 @@ func runCase(w *vh.W, c *jcase) {
 	}
 	os.RemoveAll(e.root)
 	sig := map[string]string{"f1": "delete-during-pending-snapshot", "f15": "snapshot-retry-drops-wal-of-later-writes"}[c.Kind]
+	if (c.Kind == "f1" || c.Kind == "f15") && overDeleteShape(c) {
+		sig = "delete-during-pending-snapshot-drops-measurement-fields"
+	}
 	// the torn-tail-hole shape (finding repaired by repo commit dc4e263207) is still generated and
 	// counted, but no longer tolerated: such a case must satisfy the oracle like any other
 	w.Count("torn_shape", fmt.Sprint(tornShape(c)))
